@@ -28,6 +28,9 @@ type Budget struct {
 	// OnlyAfterKind: if set, sched/select/clock deviations are only taken after a deviation of this
 	// kind occurred earlier on the path (restriction stated in DESIGN §8).
 	OnlyAfterKind string
+	// OnlyAfterStep: deviations are only taken at points recorded at or after this scheduler step
+	// (used to perturb the schedule after an injected event).
+	OnlyAfterStep int
 }
 
 // Violation found by the explorer.
@@ -239,6 +242,9 @@ func (e *Explorer) explore(prefix, prefixN []int, used map[string]int, total int
 	ord := 0
 	for i := len(prefix); i < len(pts); i++ {
 		p := pts[i]
+		if p.Step < e.Budget.OnlyAfterStep {
+			continue
+		}
 		for alt := 1; alt < p.N; alt++ {
 			kind, cost := e.classify(p, alt)
 			if total+cost > e.Budget.Total {
